@@ -10,7 +10,15 @@ SCHEMA_E = {"type": "record", "name": "E", "fields": []}
 OTHER_SCHEMA = {"type": "record", "name": "Other", "fields": [{"name": "zzz", "type": "double"}]}
 
 
+SCHEMA_F = {"type": "record", "name": "F", "fields": [{"name": "a", "type": "int"}, {"name": "f", "type": "float"},
+                                                        {"name": "m", "type": {"type": "map", "values": "int"}}]}
+
+
 def family_ops(fam):
+    if fam == "F":
+        # failing records that raise something other than TypeError / ValueError after some bytes were produced
+        return {"Wok": {"a": 3, "f": 1.5, "m": {"k": 1}}, "Wbad_overflow": {"a": 1, "f": 1e39, "m": {}}, "Wbad_attr": {"a": 1, "f": 1.0, "m": [1]},
+                "Wbad_struct": {"a": 1, "f": "x", "m": {}}}
     if fam == "A":
         return {"Wsmall": {"a": 1, "b": "x"}, "Wsmall2": {"a": -7, "b": "yé"}, "Wlarge": {"a": 2 ** 31 - 1, "b": "L" * 90},
                 "Wbad_late": {"a": 1, "b": 5}, "Wbad_early": {"a": "x", "b": "y"}}
@@ -136,13 +144,13 @@ def exhaustive(ctx, fa, maxlen):
     """Every history up to maxlen over the alphabet, per family/codec/interval (the bounded universe of DESIGN 3/C07)."""
     rnd = ctx.sub_rnd("ex")
     cases = []
-    for fam, schema in (("A", SCHEMA_A), ("E", SCHEMA_E)):
+    for fam, schema in (("A", SCHEMA_A), ("E", SCHEMA_E), ("F", SCHEMA_F)):
         recs = family_ops(fam)
         good = [v for k, v in recs.items() if "bad" not in k]
         donors = make_donors(fa, schema, good, ["null", "deflate"], rnd)
         alphabet = [("write", v) for v in recs.values()] + [("flush",), ("wblock", 0, 0, 1), ("wblock", 1, 0, 0),
                                                              ("reopen", {"schema": OTHER_SCHEMA, "codec": "bzip2", "meta": {"m": "2"}})]
-        configs = [("null", 1), ("deflate", 25), ("null", 100000)] if fam == "A" else [("null", 1), ("deflate", 100000)]
+        configs = [("null", 1), ("deflate", 25), ("null", 100000)] if fam == "A" else [("null", 100000)] if fam == "F" else [("null", 1), ("deflate", 100000)]
         for codec, interval in configs:
             for n in range(1, maxlen + 1):
                 for seq in itertools.product(alphabet, repeat=n):
